@@ -27,6 +27,31 @@ def reason_class(r):
         return m.group(1)
     return r
 
+ROOT_NOTES = [
+    ("call:user-fn-args(closure-env-for-func", "outside by design: a closure environment passed where a function type is declared; the emitted Go is ill-typed (known C02 finding)"),
+    ("call:user-fn-result-type(func-for-closure-env", "outside by design: the callee returns a closure environment, the call site is annotated with the function type (cross-package / result-only type parameter); the emitted Go is ill-typed (Go.check: assign-mismatch; known C02 finding)"),
+    ("go-const-expr:", "outside by design: an operation on literals whose exact Go constant value is not the wrapping run-time value (Go rejects or rounds it: finding C10); Go.Sem is not faithful to Go there"),
+    ("signature:parameter:float", "floats: not in the fragment (Sem / Go.Sem float operations are not related by a theorem)"),
+    ("signature:result:float", "floats: not in the fragment"),
+    ("literal:float", "floats: not in the fragment"),
+    ("call:extern", "extern results are uninterpreted in Sem and Go.Sem (both answer unit whatever the declared type), so the typing invariant of the simulation does not survive the call"),
+    ("node:to-dyn(receiver:enum", "trait object of an enum receiver: the wrapper's assertion self.(E) goes through the method-set rule (structImplements); not yet linked"),
+    ("match:literal-arms", "closure conversion in an arm (arms of closure-environment type under a function-type annotation): ill-typed Go"),
+    ("match:enum-arms", "closure conversion in an arm: ill-typed Go"),
+    ("node:array(array)", "closure conversion in an array literal: ill-typed Go"),
+    ("if:type", "closure conversion in a branch: ill-typed Go"),
+    ("signature:result-type", "closure conversion in the result: ill-typed Go"),
+    ("call:other-builtin:", "a runtime builtin outside builtinSig"),
+    ("call:missing", "`missing` (non-exhaustive match): Sem's builtin and the runtime function both end in panic:missing; the clause (a sixth call form, compile_aexpr_assign's statement form) is not built yet"),
+    ("node:go", "the apply function of the spawned closure is outside the fragment (extern calls)"),
+]
+
+def root_note(clause):
+    for pre, note in ROOT_NOTES:
+        if clause.startswith(pre):
+            return note
+    return ""
+
 def evaluate(ctx, progs):
     """progs: what c01.collect/evaluate built ({id: {"stages": …, "genv": …, "out": …}}); returns the coverage dict"""
     lines = []
@@ -69,6 +94,7 @@ def evaluate(ctx, progs):
     go_v = {"EQ": 0, "EQA": 0, "DIFF": 0, "UNSUPPORTED": 0}
     n_back = n_e2e = e2e_agree = e2e_def = 0
     e2e_reasons, e2e_samples, e2e_by_stream = {}, [], {}
+    e2e_roots, e2e_root_by_prog = {}, {}
     n_dce_ok = n_emit = emit_def = emit_agree = 0
     dce_reasons, emit_samples = {}, []
     for pid, *_ in [l.split("\t", 1) for l in lines]:
@@ -112,9 +138,27 @@ def evaluate(ctx, progs):
                         ctx.broken_ties.append(("core_to_go_preserves contradicted by evaluation",
                                                 f"{pid}: in InE2EFragment, model = real dumps, Sem(core)={oc[0]} Go.Sem(go)={og[0]}"))
             else:
-                for w in [x for x in r[8].split(";") if x.strip()] or ["?"]:
-                    k = w.strip()
+                items = [x.strip() for x in r[8].split(";") if x.strip()] or ["?"]
+                for k in items:
+                    if k.startswith("go:root:"):
+                        continue
                     e2e_reasons[k] = e2e_reasons.get(k, 0) + 1
+                # ROOT reason of the back end (round 11): `go:root:<clause>@<function>` = the first failing clause of the
+                # deepest callee on the chain of `callee-outside-fragment`s; absent when `main` itself holds the clause
+                roots = [k[len("go:root:"):] for k in items if k.startswith("go:root:")]
+                mains = [k[len("go:main:"):] + "@main" for k in items if k.startswith("go:main:")]
+                others = [k for k in items if k.startswith("go:") and not k.startswith(("go:root:", "go:main:"))]
+                rr = (roots or mains or others or [None])[0]
+                if rr is not None:
+                    clause = rr.rsplit("@", 1)[0]
+                    row = e2e_roots.setdefault(clause, {"programs": 0, "of_those_inside_InPipeFragment": 0,
+                                                        "note": root_note(clause), "samples": []})
+                    row["programs"] += 1
+                    if "middle-end" not in items:
+                        row["of_those_inside_InPipeFragment"] += 1
+                    if len(row["samples"]) < 3:
+                        row["samples"].append(pid + " @" + rr.rsplit("@", 1)[-1])
+                    e2e_root_by_prog[pid] = rr
             # DCE contract of the compiled file; fragment of `core_to_emitted_go_preserves`
             if r[9] == "dce=OK":
                 n_dce_ok += 1
@@ -193,6 +237,9 @@ def evaluate(ctx, progs):
             "in_InE2EFragment(core_to_go_preserves speaks about them)": n_e2e,
             "in_InE2EFragment_by_stream": e2e_by_stream,
             "outside_reasons(middle-end = outside InPipeFragment; go:main:… = why main is outside the back end's fragment)": dict(sorted(e2e_reasons.items(), key=lambda kv: -kv[1])),
+            "outside_root_reasons(back end; the first failing clause at the deepest callee on the chain of callee-outside-fragment, per program)":
+                dict(sorted(e2e_roots.items(), key=lambda kv: -kv[1]["programs"])),
+            "outside_root_reason_by_program(clause@function)": e2e_root_by_prog,
             "in_fragment_with_definite_core_run": e2e_def,
             "of_those_real_go_outcome(Go.Sem)_equals_core_outcome(Sem)": e2e_agree,
             "samples_inside": e2e_samples,
